@@ -91,9 +91,16 @@ func TestVerifC14(t *testing.T) {
 			sj = append(sj, s.String())
 		}
 		obsCoq, obsJ := verifw.Result(ra, err)
+		// the same plugin value builds every RA of the advertiser's life: apply it once more
+		ra2 := &ndp.RouterAdvertisement{}
+		err2 := p.Apply(ra2)
+		obs2Coq, _ := verifw.Result(ra2, err2)
+		if !slices.Equal(p.Servers, servers) {
+			c.ImplViolation = "Apply modified the plugin's static server list"
+		}
 		c.Coq = verifh.App("mkCase", verifh.None(),
 			verifh.App("Ok", verifh.Pair(verifh.B(auto), verifh.List(ss))),
-			verifh.Z(lifetime), addrsCoq, obsCoq)
+			verifh.Z(lifetime), addrsCoq, obsCoq, verifh.List([]string{obs2Coq}))
 		c.Input = map[string]any{"addrs": verifw.IPsJSON(ips), "source": mode, "auto": auto, "static": sj, "lifetime_ns": lifetime}
 		c.Observed = obsJ
 		out.Emit(c)
